@@ -161,11 +161,20 @@ func runC05(x *mc.X) {
 
 	var originHdr http.Header
 	var originBody []byte
+	phase, curTok := "first", "tokA"
 	answerFn(w, func(o *world.Origin, c *world.Call) (*http.Response, error) {
-		if c.Header.Get("If-None-Match") != "" || c.Header.Get("If-Modified-Since") != "" {
+		if phase != "replace" && (c.Header.Get("If-None-Match") != "" || c.Header.Get("If-Modified-Since") != "") {
 			return o.Respond(c, RS{Status: 304, NoTok: true, H: H("X-Merged", "m", "Cache-Control", "max-age=1000")}), nil
 		}
-		wire := c05Wire(status, shape, framing, body, httpDate(c.At), "tokA")
+		body := body
+		if phase == "replace" {
+			// the representation changed: a shorter body, same framing and header shape
+			body, curTok = []byte("new"), "tokB"
+			if len(bodies[bi].data) == 0 || status == 204 {
+				body = []byte{}
+			}
+		}
+		wire := c05Wire(status, shape, framing, body, httpDate(c.At), curTok)
 		resp, err := http.ReadResponse(bufio.NewReader(bytes.NewReader(wire)), c.Req)
 		if err != nil {
 			panic("harness: origin wire does not parse: " + err.Error())
@@ -209,7 +218,7 @@ func runC05(x *mc.X) {
 		if o.Panic != nil || o.Err != nil {
 			return
 		}
-		if o.HdrTok != "tokA" || len(o.Calls) != 0 {
+		if o.HdrTok != curTok || len(o.Calls) != 0 {
 			x.Note(what + ": not a hit")
 			return
 		}
@@ -292,6 +301,15 @@ func runC05(x *mc.X) {
 	logObs(x, "GET (expect hit after the 304)", o4)
 	checkHit(o4, "hit after 304", true)
 	checkStoreNoHop()
+	// the stored representation is replaced by a shorter one (request no-cache, origin answers 200), then served again
+	phase = "replace"
+	world.Advance(secs(5))
+	o5 := get(w, U, "Cache-Control", "no-cache")
+	logObs(x, "GET no-cache (origin: 200 with a shorter body)", o5)
+	world.Advance(secs(5))
+	o6 := get(w, U)
+	logObs(x, "GET (expect hit on the replacement)", o6)
+	checkHit(o6, "hit after replacement", false)
 	x.Sample(map[string]any{"body": bodies[bi].name, "framing": framing, "header_shape": shape.name, "status": status, "backend": backend, "first_hit": o2.String(), "hit_after_304": o4.String()})
 }
 
